@@ -27,10 +27,18 @@ type TNode struct {
 	Kids   []TNode `json:"c,omitempty"`
 }
 
+type c13Step struct {
+	Pass  string `json:"pass"`
+	Fault int    `json:"fault"` // 0 = fault-free, k = the k-th callback of this pass fails
+}
+
 type c13Case struct {
 	Tree  TNode  `json:"tree"`
 	Pass  string `json:"pass,omitempty"`  // "" = all passes
 	Fault int    `json:"fault,omitempty"` // with Pass: 0 = fault-free, k = k-th callback fails; -1 = all
+	// Seq: several passes applied one after the other to the SAME tree object (a history:
+	// schemas recorded by an earlier pass, children replaced by an earlier Transform)
+	Seq []c13Step `json:"seq,omitempty"`
 }
 
 type c13Prop struct{}
@@ -563,37 +571,38 @@ func (m *c13Model) runCheck(root *mTree) string {
 	return "check=" + errStr
 }
 
-// transform returns the rendering of the resulting node and an error string.
-func (m *c13Model) transform(x *mTree) (string, string) {
+// transform returns the node the pass hands back (the model tree is updated in place,
+// as the documented behaviour is "rebuilds the children") and an error string.
+func (m *c13Model) transform(x *mTree) (*mTree, string) {
+	repl := func() *mTree { return &mTree{t: &TNode{Kind: "repl"}, id: 1000 + x.id} }
 	switch {
 	case x.t.Kind == "xformable":
 		if m.callback("xform", x.id, "") {
-			return "", fmt.Sprintf("%d:fault@%d", x.id, x.id)
+			return nil, fmt.Sprintf("%d:fault@%d", x.id, x.id)
 		}
-		return fmt.Sprintf("R%d", 1000+x.id), ""
+		return repl(), ""
 	case x.hasTransformer():
 		if m.callback("tnode", x.id, "") {
-			return "", fmt.Sprintf("%d:fault@%d", x.id, x.id)
+			return nil, fmt.Sprintf("%d:fault@%d", x.id, x.id)
 		}
 		switch x.t.Interp {
 		case "transformer-same", "both-same":
-			return m.shape(x), "" // the node itself, its subtree untouched
+			return x, "" // the node itself, its subtree untouched
 		case "transformer-child":
-			return m.shape(x.kids[0]), ""
+			return x.kids[0], ""
 		}
-		return fmt.Sprintf("R%d", 1000+x.id), ""
+		return repl(), ""
 	case x.isNT():
-		var parts []string
-		for _, k := range x.kids {
-			s, e := m.transform(k)
+		for i, k := range x.kids {
+			nk, e := m.transform(k)
 			if e != "" {
-				return "", e
+				return nil, e
 			}
-			parts = append(parts, s)
+			x.kids[i] = nk
 		}
-		return fmt.Sprintf("nt%d[%s]", x.id, strings.Join(parts, " ")), ""
+		return x, ""
 	}
-	return m.shape(x), ""
+	return x, ""
 }
 
 // shape renders an untransformed subtree.
@@ -611,6 +620,8 @@ func (m *c13Model) shape(x *mTree) string {
 			parts = append(parts, m.shape(k))
 		}
 		return "list[" + strings.Join(parts, " ") + "]"
+	case "repl":
+		return fmt.Sprintf("R%d", x.id)
 	}
 	return fmt.Sprintf("%s%d", x.t.Kind, x.id)
 }
@@ -625,6 +636,8 @@ func (m *c13Model) eval(x *mTree) (interface{}, string) {
 	switch x.t.Kind {
 	case "term":
 		return fmt.Sprintf("v%d", x.id), ""
+	case "repl":
+		return fmt.Sprintf("r%d", x.id-1000), ""
 	case "lit":
 		return int64(x.id), ""
 	case "empty", "walkable", "xformable", "checkable":
@@ -655,6 +668,11 @@ func (m *c13Model) eval(x *mTree) (interface{}, string) {
 		res := map[string]interface{}{}
 		for i := 0; i < len(x.kids); i += 2 {
 			kv := x.kids[i]
+			if !kv.isNT() || len(kv.kids) < 3 {
+				// an earlier Transform replaced the key-value node: the Object interpreter's
+				// precondition no longer holds, it panics (any message)
+				panic(mPanic("*"))
+			}
 			k, e := m.eval(kv.kids[0])
 			if e != "" {
 				return nil, e
@@ -663,7 +681,11 @@ func (m *c13Model) eval(x *mTree) (interface{}, string) {
 			if e != "" {
 				return nil, e
 			}
-			res[k.(string)] = v
+			ks, isStr := k.(string)
+			if !isStr {
+				panic(mPanic("*"))
+			}
+			res[ks] = v
 		}
 		return res, ""
 	}
@@ -739,108 +761,151 @@ func errStr(e parsley.Error) string {
 // execute runs one (pass, fault) on a fresh real tree and on the model and compares.
 // It returns the number of callbacks of the run and a description of any mismatch.
 func c13Execute(tree *TNode, pass string, fault int) (calls int, mismatch string) {
+	cs, mm := c13ExecuteSeq(tree, []c13Step{{pass, fault}})
+	return cs[0], mm
+}
+
+// kidsOfReal lists the children the harness can see of a real node.
+func kidsOfReal(n parsley.Node) []parsley.Node {
+	switch x := n.(type) {
+	case ast.NodeList:
+		return x
+	case *walkableNode:
+		return x.kids
+	case parsley.NonTerminalNode:
+		return x.Children()
+	}
+	return nil
+}
+
+// c13ExecuteSeq applies the steps one after the other to ONE real tree and to the model
+// and compares after every step: result, callback log, Schema() of every node.
+func c13ExecuteSeq(tree *TNode, steps []c13Step) (calls []int, mismatch string) {
 	ctxv := 0
-	r := &c13Run{fault: fault, userCtx: &ctxv, ids: map[interface{}]int{}}
+	r := &c13Run{userCtx: &ctxv, ids: map[interface{}]int{}}
 	root := r.build(tree)
-	m := &c13Model{fault: fault, schema: map[int]string{}}
+	m := &c13Model{schema: map[int]string{}}
 	mroot := m.index(tree)
-	var got, want string
-	func() {
-		defer func() {
-			if p := recover(); p != nil {
-				got = fmt.Sprintf("panic:%v", p)
+	calls = make([]int, len(steps))
+	for si, st := range steps {
+		pass := st.Pass
+		r.log, r.calls, r.fault = nil, 0, st.Fault
+		m.log, m.calls, m.fault = nil, 0, st.Fault
+		where := ""
+		if len(steps) > 1 {
+			where = fmt.Sprintf("step %d (%s, fault %d) of the sequence %v on one tree: ", si+1, pass, st.Fault, steps)
+		}
+		var got, want string
+		var newRoot parsley.Node
+		var newMRoot *mTree
+		func() {
+			defer func() {
+				if p := recover(); p != nil {
+					got = fmt.Sprintf("panic:%v", p)
+				}
+			}()
+			switch pass {
+			case "walk":
+				res := parsley.Walk(root, func(n parsley.Node) bool { return r.callback("visit", r.idOf(n), r.userCtx, "") })
+				got = fmt.Sprint("walk=", res)
+			case "check":
+				got = "check=" + errStr(parsley.StaticCheck(r.userCtx, root))
+			case "transform":
+				n, err := parsley.Transform(r.userCtx, root)
+				if err != nil {
+					got = "transform-err=" + errStr(err)
+					if n != nil {
+						got += " with-node"
+					}
+				} else {
+					got = "transform=" + r.shape(n)
+					newRoot = n
+				}
+			case "eval":
+				v, err := parsley.EvaluateNode(r.userCtx, root)
+				if err != nil {
+					got = "eval-err=" + errStr(err)
+				} else {
+					got = "eval=" + canon(v)
+				}
 			}
 		}()
-		switch pass {
-		case "walk":
-			res := parsley.Walk(root, func(n parsley.Node) bool { return r.callback("visit", r.idOf(n), r.userCtx, "") })
-			got = fmt.Sprint("walk=", res)
-		case "check":
-			got = "check=" + errStr(parsley.StaticCheck(r.userCtx, root))
-		case "transform":
-			n, err := parsley.Transform(r.userCtx, root)
-			if err != nil {
-				got = "transform-err=" + errStr(err)
-				if n != nil {
-					got += " with-node"
+		func() {
+			defer func() {
+				if p := recover(); p != nil {
+					if mp, ok := p.(mPanic); ok {
+						want = "panic:" + string(mp)
+						return
+					}
+					panic(p)
 				}
-			} else {
-				got = "transform=" + r.shape(n)
-			}
-		case "eval":
-			v, err := parsley.EvaluateNode(r.userCtx, root)
-			if err != nil {
-				got = "eval-err=" + errStr(err)
-			} else {
-				got = "eval=" + canon(v)
-			}
-		}
-	}()
-	func() {
-		defer func() {
-			if p := recover(); p != nil {
-				if mp, ok := p.(mPanic); ok {
-					want = "panic:" + string(mp)
-					return
+			}()
+			switch pass {
+			case "walk":
+				want = m.runWalk(mroot)
+			case "check":
+				want = m.runCheck(mroot)
+			case "transform":
+				nr, e := m.transform(mroot)
+				if e != "" {
+					want = "transform-err=" + e
+				} else {
+					want = "transform=" + m.shape(nr)
+					newMRoot = nr
 				}
-				panic(p)
+			case "eval":
+				v, e := m.eval(mroot)
+				if e != "" {
+					want = "eval-err=" + e
+				} else {
+					want = "eval=" + canon(v)
+				}
 			}
 		}()
-		switch pass {
-		case "walk":
-			want = m.runWalk(mroot)
-		case "check":
-			want = m.runCheck(mroot)
-		case "transform":
-			s, e := m.transform(mroot)
-			if e != "" {
-				want = "transform-err=" + e
-			} else {
-				want = "transform=" + s
-			}
-		case "eval":
-			v, e := m.eval(mroot)
-			if e != "" {
-				want = "eval-err=" + e
-			} else {
-				want = "eval=" + canon(v)
-			}
+		calls[si] = r.calls
+		if want == "panic:*" && strings.HasPrefix(got, "panic:") {
+			return calls, ""
 		}
-	}()
-	if got != want {
-		return r.calls, fmt.Sprintf("result differs: got %s, documented %s", clip(got), clip(want))
-	}
-	if strings.HasPrefix(want, "panic:") {
-		return r.calls, ""
-	}
-	gl, wl := strings.Join(r.log, "; "), strings.Join(m.log, "; ")
-	if gl != wl {
-		return r.calls, fmt.Sprintf("callback sequence differs:\n  got        %s\n  documented %s", clip(gl), clip(wl))
-	}
-	// Schema() of every node: set before the fault, untouched after
-	if pass == "check" || pass == "walk" || pass == "eval" {
-		var walkM func(x *mTree, i *int) string
-		walkM = func(x *mTree, i *int) string {
-			n := r.nodes[*i]
-			*i++
+		if got != want {
+			return calls, where + fmt.Sprintf("result differs: got %s, documented %s", clip(got), clip(want))
+		}
+		if strings.HasPrefix(want, "panic:") {
+			return calls, ""
+		}
+		gl, wl := strings.Join(r.log, "; "), strings.Join(m.log, "; ")
+		if gl != wl {
+			return calls, where + fmt.Sprintf("callback sequence differs:\n  got        %s\n  documented %s", clip(gl), clip(wl))
+		}
+		if pass == "transform" {
+			if newRoot == nil || newMRoot == nil {
+				return calls, "" // aborted Transform: the partial in-place state is not asserted, the sequence ends
+			}
+			root, mroot = newRoot, newMRoot
+		}
+		// Schema() of every node of the current tree: set before the fault, untouched after
+		var cmp func(n parsley.Node, x *mTree) string
+		cmp = func(n parsley.Node, x *mTree) string {
 			if x.t.Kind != "list" {
 				if g, w := schemaStr(n.Schema()), m.schemaOf(x); g != w {
 					return fmt.Sprintf("Schema() of node %d (%s) is %s, documented %s", x.id, x.t.Kind, g, w)
 				}
 			}
-			for _, k := range x.kids {
-				if d := walkM(k, i); d != "" {
+			ks := kidsOfReal(n)
+			if len(ks) != len(x.kids) {
+				return fmt.Sprintf("node %d (%s) has %d children, documented %d", x.id, x.t.Kind, len(ks), len(x.kids))
+			}
+			for i, k := range x.kids {
+				if d := cmp(ks[i], k); d != "" {
 					return d
 				}
 			}
 			return ""
 		}
-		i := 0
-		if d := walkM(mroot, &i); d != "" {
-			return r.calls, d
+		if d := cmp(root, mroot); d != "" {
+			return calls, where + d
 		}
 	}
-	return r.calls, ""
+	return calls, ""
 }
 
 var c13Passes = []string{"walk", "check", "transform", "eval"}
@@ -848,6 +913,39 @@ var c13Passes = []string{"walk", "check", "transform", "eval"}
 func (*c13Prop) Run(cc Case) Verdict {
 	c := cc.(*c13Case)
 	v := Verdict{Probes: map[string]int64{}, Faults: map[string]int64{}}
+	runSeq := func(steps []c13Step) bool {
+		cs, mm := c13ExecuteSeq(&c.Tree, steps)
+		v.Probes["executions"]++
+		v.Probes["pass_sequences_on_one_tree"]++
+		for i, st := range steps {
+			v.Steps += int64(cs[i]) + 1
+			if st.Fault > 0 {
+				v.Faults["callback_failure:"+st.Pass]++
+			}
+		}
+		if mm != "" {
+			v.Violation, v.Class = true, "seq:"+steps[len(steps)-1].Pass
+			v.Detail = mm
+			c.Seq = steps
+			return false
+		}
+		return true
+	}
+	if len(c.Seq) > 0 {
+		for _, st := range c.Seq {
+			ok := false
+			for _, p := range c13Passes {
+				ok = ok || p == st.Pass
+			}
+			if !ok {
+				v.Discard = "bad-sequence"
+				return v
+			}
+		}
+		runSeq(append([]c13Step(nil), c.Seq...))
+		v.Fingerprint = c.Tree.hash(0)
+		return v
+	}
 	passes := c13Passes
 	if c.Pass != "" {
 		passes = []string{c.Pass}
@@ -889,6 +987,31 @@ func (*c13Prop) Run(cc Case) Verdict {
 			}
 		}
 	}
+	// pass sequences on ONE tree object (only when all passes are enumerated)
+	if c.Pass == "" {
+		nCheck, _ := c13Execute(&c.Tree, "check", 0)
+		v.Probes["executions"]++
+		var seqs [][]c13Step
+		for k := 1; k <= nCheck; k++ {
+			seqs = append(seqs, []c13Step{{"check", k}, {"check", 0}}) // aborted pass, then a clean one
+			seqs = append(seqs, []c13Step{{"check", 0}, {"check", k}}) // second pass with a failure
+		}
+		seqs = append(seqs,
+			[]c13Step{{"check", 0}, {"check", 0}},
+			[]c13Step{{"transform", 0}, {"check", 0}},
+			[]c13Step{{"transform", 0}, {"eval", 0}},
+			[]c13Step{{"transform", 0}, {"walk", 0}},
+			[]c13Step{{"transform", 0}, {"transform", 0}},
+			[]c13Step{{"check", 0}, {"transform", 0}, {"check", 0}},
+			[]c13Step{{"walk", 0}, {"check", 0}, {"eval", 0}},
+			[]c13Step{{"eval", 0}, {"walk", 1}, {"check", 0}},
+		)
+		for _, sq := range seqs {
+			if !runSeq(sq) {
+				return v
+			}
+		}
+	}
 	v.Probes["tree_nodes"] += int64(nodes)
 	v.Fingerprint = c.Tree.hash(0)
 	v.Nontrivial = nodes >= 3 && points >= 2
@@ -899,8 +1022,22 @@ func (*c13Prop) Shrink(cc Case) []Case {
 	c := cc.(*c13Case)
 	var out []Case
 	mk := func(t TNode) {
-		k := &c13Case{Tree: t, Pass: c.Pass, Fault: -1}
+		k := &c13Case{Tree: t, Pass: c.Pass, Fault: -1, Seq: c.Seq}
 		if k.Tree.valid(true) == nil {
+			out = append(out, k)
+		}
+	}
+	// a sequence may fail with fewer steps or without the injected failures
+	if len(c.Seq) > 1 {
+		for i := range c.Seq {
+			k := &c13Case{Tree: c.Tree, Fault: -1, Seq: append(append([]c13Step(nil), c.Seq[:i]...), c.Seq[i+1:]...)}
+			out = append(out, k)
+		}
+	}
+	for i, st := range c.Seq {
+		if st.Fault > 0 {
+			k := &c13Case{Tree: c.Tree, Fault: -1, Seq: append([]c13Step(nil), c.Seq...)}
+			k.Seq[i].Fault = 0
 			out = append(out, k)
 		}
 	}
